@@ -42,6 +42,7 @@ func init() {
 		Assume: []string{"dropped by the modules' own export code and therefore not compared: closed HTLCs, service requests/responses/earned fees, random results", "queries run on contexts with identical height and time (pending farm rewards depend on it)", "isolated imports skip crisis' genesis invariants because the defaulted modules' escrow balances no longer match by construction; the full import does not"},
 		Cases:  func(t string) int { return tierN(t, 4, 32) },
 		Run:    runExportImport,
+		RequireTotals: aliveTotals(map[string]int64{"probes-ok-on-source:mt": 1, "probes-ok-on-source:nft": 1, "probes-ok-on-source:token": 1, "probes-ok-on-source:coinswap": 1, "probes-ok-on-source:farm": 1}),
 	})
 }
 
